@@ -29,7 +29,8 @@ CHUNK = 1200
 RULE = ("one case per (type tag, coordinate structure) of the TLA+ universe (flat lists over the value alphabet, scalars, "
         "extra nesting, point lists, valid skeletons of the nine kinds, every single-position token edit of every skeleton, "
         "every skeleton under every tag; thorough: every double edit of the small skeletons) plus random multi-edit structures; "
-        "each run through 6 entry points x 2 number renderings; non-trivial = the structure is a non-empty list")
+        "each run through 6 entry points x 2 number renderings, and through the 5 container-passing entry points again with the "
+        "structure built from tuples (all levels / inner levels / outermost level); non-trivial = the structure is a non-empty list")
 TRUSTED_BASE = ["checks/c03.py (token string <-> nested list, float/int rendering, calls the six entry points, "
                 "reads class/tag/coordinates back as exact integers, library == for the dump round trip)"]
 ASSUMPTIONS = ["coordinates are finite numbers: ints, integer-valued floats, and the non-integer doubles of GeomValidate!FineTable "
@@ -43,6 +44,7 @@ ASSUMPTIONS = ["coordinates are finite numbers: ints, integer-valued floats, and
                "(or multi-polygon member) without any ring is invalid under every reading"]
 
 OPEN, CLOSE = -98, -99
+CONTS = ["list", "tuple", "inner", "outer"]          # GeomValidate!Containers (random cases carry it like the enumerated ones)
 ENTRIES = ["ctor", "model_validate", "gv_json", "gv_dict", "gv_attr", "sound_event"]
 NUMS = ["float", "int"]
 _REC = None
@@ -126,12 +128,30 @@ def _call(entry, kind, c):
     raise KeyError(entry)
 
 
-def _run(entry, num, kind, c, table=None, back=None):
-    r = {"entry": entry, "num": num, "res": "", "exc": "", "verr": False, "cls": "", "tag": "", "coords": [],
-         "eq": "", "cls2": "", "coords2": []}
+def contain(c, how, top=True):
+    """the same numbers and nesting in other Python containers: "list" | "tuple" | "inner" (list of tuples) | "outer" (tuple of lists)."""
+    if not isinstance(c, (list, tuple)):
+        return c
+    as_tuple = {"list": False, "tuple": True, "inner": not top, "outer": top}[how]
+    items = [contain(y, how, False) for y in c]
+    return tuple(items) if as_tuple else items
+
+
+def _build(entry, kind, value):
+    """call one entry point; returns (geometry, None) or (None, exception) or ("other", object)."""
     try:
-        g = _call(entry, kind, render(c, num, table))
+        g = _call(entry, kind, value)
     except Exception as ex:  # an observation
+        return None, ex
+    return g, None
+
+
+def _run(entry, num, kind, c, table=None, back=None, cont="list"):
+    r = {"entry": entry, "num": num, "cont": cont, "res": "", "exc": "", "verr": False, "cls": "", "tag": "", "coords": [],
+         "eq": "", "cls2": "", "coords2": [], "twin": "", "dumpeq": ""}
+    value = render(c, num, table)
+    g, ex = _build(entry, kind, contain(value, cont))
+    if ex is not None:
         r.update(res="raise", exc=type(ex).__name__, verr=isinstance(ex, ValueError))
         return r
     if not isinstance(g, G.BaseGeometry):
@@ -143,7 +163,27 @@ def _run(entry, num, kind, c, table=None, back=None):
         r.update(eq="equal" if (g2 == g) is True else "differs", cls2=type(g2).__name__, coords2=enc(g2.coordinates, back))
     except Exception as ex:
         r.update(eq="raise", cls2=type(ex).__name__)
+    if cont == "list":
+        return r
+    # the twin: the same numbers in plain lists through the same entry point (built afresh)
+    t, ex = _build(entry, kind, copy.deepcopy(value))
+    if ex is not None or not isinstance(t, G.BaseGeometry):
+        r.update(twin="raise", dumpeq="raise")
+    else:
+        r.update(twin="equal" if (g == t) is True and (t == g) is True else "differs",
+                 dumpeq="equal" if g.model_dump() == t.model_dump() else "differs")
     return r
+
+
+def _variants(c, conts):
+    """the container variants that really differ for this structure (a bare number has none; a flat list has two)."""
+    seen, out = set(), []
+    for how in conts:
+        k = repr(contain(c, how))
+        if k not in seen:
+            seen.add(k)
+            out.append(how)
+    return out
 
 
 def execute(case):
@@ -151,9 +191,12 @@ def execute(case):
     if enc(c) != case["toks"] or dec(case["toks"]) != c:      # the two renderings of the input must be the same structure
         raise AssertionError("case tokens and nested structure disagree")
     table, back = _tables(case)
-    if table is not None:            # non-integer doubles: one rendering
-        return {"runs": [_run(e, "fine", case["kind"], c, table, back) for e in ENTRIES]}
-    return {"runs": [_run(e, n, case["kind"], c) for e in ENTRIES for n in NUMS]}
+    nums = ["fine"] if table is not None else NUMS            # non-integer doubles: one rendering
+    runs = [_run(e, n, case["kind"], c, table, back) for e in ENTRIES for n in nums]
+    # the other containers, wherever Python containers are handed over (JSON text has arrays only)
+    for how in _variants(c, case.get("conts", ["list"]))[1:]:
+        runs += [_run(e, nums[0], case["kind"], c, table, back, how) for e in ENTRIES if e != "gv_json"]
+    return {"runs": runs}
 
 
 # ----------------------------------------------------------------------------- random structures (larger universe)
@@ -297,7 +340,7 @@ def random_cases(rng, tier):
         toks = enc(c)
         if len(toks) > 400:
             continue
-        yield {"kind": kind, "toks": toks, "c": c, "num": "lit", "vals": []}
+        yield {"kind": kind, "toks": toks, "c": c, "num": "lit", "vals": [], "conts": CONTS}
     # the same generator over the codes of the fine table (non-integer doubles)
     global _T, _F, _BAD, _LINE_T
     lit = (_T, _F, _BAD, _LINE_T)
@@ -314,7 +357,7 @@ def random_cases(rng, tier):
                 continue
             toks = enc(c)
             if len(toks) <= 400:
-                yield {"kind": kind, "toks": toks, "c": c, "num": "fine", "vals": [[k, v] for k, v in FINE]}
+                yield {"kind": kind, "toks": toks, "c": c, "num": "fine", "vals": [[k, v] for k, v in FINE], "conts": CONTS}
     finally:
         _T, _F, _BAD, _LINE_T = lit
 
@@ -337,7 +380,7 @@ MANIFEST = {
              "insert, repeat, wrap, unwrap, reverse, empty), every skeleton under every tag, and (thorough) every double edit. Each "
              "structure is then pushed through the constructor, model_validate, geometry_validate in json / dict / attributes mode and "
              "SoundEvent(geometry=dict), with float and int numbers, and TLC judges accept/reject, error class, normal form, class = tag, "
-             "agreement of the modes and the JSON dump round trip. Bounded-exhaustive plus random multi-edit structures."),
+             "agreement of the modes, the JSON dump round trip and equality with the list-built twin. Bounded-exhaustive plus random multi-edit structures."),
     "note": ("trusted: TLC, the binder checks/c03.py (token <-> nested list, calls, exact read-back); numbers are ints, integer-valued floats and the "
              "non-integer doubles of FineTable (NaN, inf, strings, booleans, tuples are not generated); 'no object exists' is observed as 'the call "
              "raised'; where the statement is open (multi-line forward: first<last vs every step) nothing is demanded; "
